@@ -469,6 +469,7 @@ func checkC10(c *Ctx) {
 	c10SenderSendsAll(c, "R-sender-sends-all")
 	c10NoBuiltinTimeouts(c, "R-no-transport-timeout")
 	c10AssertReaches(c)
+	c10CallerMapUntouched(c, "R-caller-map-untouched")
 }
 
 func c10Client(c *Ctx) {
@@ -1312,4 +1313,68 @@ func implementsAll(a, b *types.Interface) bool {
 		}
 	}
 	return true
+}
+
+// ---------------------------------------------------------------- R-caller-map-untouched
+// A map the application hands to the library (the params of a notification, the arguments of a call) is the
+// application's: a handler may reuse one map for several notifications. A function of the public surface — exported,
+// or a method of the notification-sender interface handed to tool handlers — must not delete from or store into a map
+// parameter; it copies what it needs. (`delete(params, "_meta")` makes the second notification sent with the same map
+// lose its _meta.)
+func c10CallerMapUntouched(c *Ctx, rule string) {
+	senderIface := c.senderIface()
+	n := 0
+	for _, fn := range c.P.LibFns {
+		if fn.Parent() != nil || fn.Synthetic != "" {
+			continue
+		}
+		public := false
+		if obj, ok := fn.Object().(*types.Func); ok && obj.Exported() {
+			if recv := fn.Signature.Recv(); recv == nil {
+				public = true
+			} else {
+				rt := recv.Type()
+				if p, ok := rt.(*types.Pointer); ok {
+					rt = p.Elem()
+				}
+				if nt, ok := rt.(*types.Named); ok {
+					if nt.Obj().Exported() {
+						public = true
+					}
+					if senderIface != nil {
+						if si, ok := senderIface.Underlying().(*types.Interface); ok && (types.Implements(nt, si) || types.Implements(types.NewPointer(nt), si)) {
+							public = true
+						}
+					}
+				}
+			}
+		}
+		if !public {
+			continue
+		}
+		for _, p := range fn.Params {
+			if _, isMap := p.Type().Underlying().(*types.Map); !isMap || p.Referrers() == nil {
+				continue
+			}
+			n++
+			bad := ""
+			for _, r := range *p.Referrers() {
+				switch y := r.(type) {
+				case *ssa.MapUpdate:
+					if y.Map == ssa.Value(p) {
+						bad = sprintf("stores into it at %s", c.Pos(y.Pos()))
+					}
+				case *ssa.Call:
+					if b, ok := y.Call.Value.(*ssa.Builtin); ok && b.Name() == "delete" && len(y.Call.Args) > 0 && y.Call.Args[0] == ssa.Value(p) {
+						bad = sprintf("deletes from it at %s", c.Pos(y.Pos()))
+					}
+				}
+			}
+			c.R.Check(bad == "", rule, sprintf("map parameter %s of %s", p.Name(), fname(fn)), c.Pos(fn.Pos()), "read only",
+				sprintf("%s, part of the public surface, %s: the map belongs to the caller, who may use it again — a handler that sends two notifications with one params map finds the member gone (the second notification arrives without it)", fname(fn), bad))
+		}
+	}
+	if n < 5 {
+		c.R.Break("%s: only %d map parameters on the public surface", rule, n)
+	}
 }
